@@ -3,7 +3,7 @@ From Coq Require Import List NArith String Bool.
 From V Require Import Base.Util Base.Strings Base.Result Model.Registry Model.Settings Model.Subst
   Model.TypePath Model.Derives Model.Generate Model.Emit Model.Equal Model.WellFormed Model.Builders
   Model.SubstSpec
-  Checkers.Parse Checkers.Sem Corr.RunTG.
+  Checkers.Parse Checkers.Sem Corr.RunTG Corr.TeqTrace.
 Require V.Model.Shape.
 Import ListNotations.
 Open Scope string_scope. Open Scope list_scope.
@@ -96,11 +96,53 @@ Definition prop_faithful (c : tg_case) : bool :=
     driver attributes a failure to it only if the model reproduces the implementation's output) *)
 Definition prop_faithful_all (c : tg_case) : bool :=
   if V.Model.Shape.root_freshb (settings_of (tg_spec c)) then faithful_obs c else true.
+(** positions (= ids) of the item-eligible entries whose skeleton differs from the skeleton of the
+    first eligible entry with their path, paired with that first entry: the comparisons
+    [types_equal later first] that must have said "equal" for generation to succeed *)
+Definition conflated_pairs (r : registry) (s : settings) : list (N * N) :=
+  flat_map (fun e =>
+              if V.Model.Shape.item_eligible s (snd e) then
+                match V.Model.Shape.first_eligible r s (t_path (snd e)) with
+                | Some e0 =>
+                    match create_type_ir r s (snd e) V.Model.Shape.flat0,
+                          create_type_ir r s (snd e0) V.Model.Shape.flat0 with
+                    | Ok (Some a), Ok (Some b) =>
+                        if V.Model.Shape.skel_eqb (V.Model.Shape.erase_ids a) (V.Model.Shape.erase_ids b)
+                        then [] else [(fst e, fst e0)]
+                    | _, _ => [(fst e, fst e0)]
+                    end
+                | None => []
+                end
+              else []) r.
+
+(** every conflation is decided by one of the F3 shortcuts (Corr/TeqTrace.v), none by plain
+    structural comparison alone *)
+Definition conflations_by_shortcut (r : registry) (s : settings) : bool :=
+  match conflated_pairs r s with
+  | [] => false
+  | l => forallb (fun ab => match types_equal_traced r (fst ab) (snd ab) with
+                            | Ok (true, hits) => N.ltb 0 hits
+                            | _ => false
+                            end) l
+  end.
+
 Definition known_F3_conflation (c : tg_case) : bool :=
   match tg_gen c with
-  | OOk _ => negb (V.Model.Shape.skeleton_consistentb (tg_reg c) (settings_of (tg_spec c)))
+  | OOk _ => conflations_by_shortcut (tg_reg c) (settings_of (tg_spec c))
   | _ => false
   end.
+
+(** the traced copy of [types_equal] gives the model's verdict on every same-path pair *)
+Definition corr_teq_trace (c : tg_case) : bool :=
+  let r := tg_reg c in
+  let s := settings_of (tg_spec c) in
+  forallb (fun e =>
+             if V.Model.Shape.item_eligible s (snd e) then
+               match V.Model.Shape.first_eligible r s (t_path (snd e)) with
+               | Some e0 => traced_agrees r (fst e) (fst e0)
+               | None => true
+               end
+             else true) r.
 Definition prop_syn_parses (c : tg_case) : bool := tg_syn_ok c.
 Definition parsed (c : tg_case) : option pmod :=
   match tg_gen c with OOk t => parse_module t | _ => None end.
